@@ -24,6 +24,7 @@ for pid in ALL:
     if getattr(p, "not_applicable", None):
         na.append({"property_id": pid, "reason": p.not_applicable})
         continue
+    assert p.level in ("exploration", "fault_enumeration", "model_checking", "proof", "translation_validation", "other"), (pid, p.level)
     served.append(pid)
     checks.append({
         "property_id": pid,
